@@ -54,7 +54,7 @@ def expected(ta, ca, tb, cb):
 
 def check_result(r, want_t, want_c, what, case, bad, closed=True):
     try:
-        t, c = model.alpha_codes(r if isinstance(r, AnsiString) else r._s)
+        t, c = model.alpha_codes(model.content(r))
     except Exception as e:  # noqa
         bad.append(('cat-inconsistent', case, '%s: reading the result raised %s: %s' % (what, type(e).__name__, e)))
         return False
@@ -65,7 +65,7 @@ def check_result(r, want_t, want_c, what, case, bad, closed=True):
         bad.append(('cat-cells', case, '%s: %s' % (what, model.first_diff(c, want_c))))
         return False
     if closed:
-        err = model.closed_check(r if isinstance(r, AnsiString) else r._s) or model.self_check(r)
+        err = model.closed_check(model.content(r)) or model.self_check(r)
         if err:
             bad.append(('cat-not-closed', case, '%s: %s' % (what, err)))
             return False
